@@ -334,7 +334,7 @@ impl Prop for C13 {
     fn runs(&self, tier: Tier) -> u64 {
         N_ENUM
             + match tier {
-                Tier::Quick => 8000,
+                Tier::Quick => 40_000,
                 Tier::Thorough => 250_000,
             }
     }
